@@ -37,8 +37,11 @@ def resource_name(obj):
     raise KeyError(obj)
 
 
-def res_dict(d):
-    return dict((resource(k), v) for k, v in d.items())
+def res_dict(d, reverse=False):
+    """Resource dict as rig sees it; keys in sorted name order (or reversed)
+    so that replays do not depend on JSON key order."""
+    keys = sorted(d, reverse=reverse)
+    return dict((resource(k), d[k]) for k in keys)
 
 
 # --------------------------------------------------------------- machine
@@ -94,6 +97,7 @@ def machine(draw, max_w=8, max_h=8, resources=None, faults=True,
         resources = draw(resources_strategy())
     exc = []
     live = [c for c in chips if c not in set(map(tuple, dead_chips))]
+    exc_reversed = False
     if exceptions and draw(st.booleans()):
         # exceptions are only listed for working chips (an exception entry
         # for a dead chip makes global reservations raise IndexError; not
@@ -103,8 +107,12 @@ def machine(draw, max_w=8, max_h=8, resources=None, faults=True,
             exc.append([c[0], c[1], dict(
                 (k, draw(st.one_of(st.just(0), st.integers(0, v + 2))))
                 for k, v in resources.items())])
+        # dictionaries with the same keys in another insertion order are the
+        # same resources: half of the machines list their exceptions reversed
+        if draw(st.booleans()):
+            exc_reversed = True
     return {"w": w, "h": h, "mesh": mesh, "resources": resources,
-            "exceptions": exc,
+            "exceptions": exc, "exceptions_reversed": exc_reversed,
             "dead_chips": sorted(map(list, dead_chips)),
             "dead_links": sorted(set(map(tuple, dead_links)))}
 
@@ -130,8 +138,9 @@ def build_machine(m):
                           for x, y, l in mesh_dead_links(m["w"], m["h"]))
     return Machine(
         m["w"], m["h"], chip_resources=res_dict(m["resources"]),
-        chip_resource_exceptions=dict(((x, y), res_dict(r))
-                                      for x, y, r in m["exceptions"]),
+        chip_resource_exceptions=dict(
+            ((x, y), res_dict(r, m.get("exceptions_reversed", False)))
+            for x, y, r in m["exceptions"]),
         dead_chips=set((x, y) for x, y in m["dead_chips"]),
         dead_links=dead_links)
 
